@@ -73,6 +73,15 @@ CASES = [
     ("C-R3", "rewrite", "C05", C, "        if store is None:\n            return None\n        return store.get(entry)\n", "        if store is not None:\n            return store.get(entry)\n        return None\n"),
     ("C-R4", "rewrite", "C05", C, "        return [entry for entry in list(records) if type_ == entry.type and class_ == entry.class_]", "        return [entry for entry in records if type_ == entry.type and class_ == entry.class_]"),
     ("C-R5", "rewrite", "C05", C, "    del cache[key][record]\n    if not cache[key]:\n        del cache[key]\n", "    store = cache[key]\n    del store[record]\n    if not store:\n        del cache[key]\n"),
+    # ---- _dns.py / C13, C20
+    ("D-M1", "mutation", "C13", D, "        return self.created + (_EXPIRE_STALE_TIME_MS * self.ttl) <= now", "        return self.created + (_EXPIRE_STALE_TIME_MS * self.ttl) < now"),
+    ("D-M2", "mutation", "C13", D, "        return 0 if remain < 0 else remain", "        return remain"),
+    ("D-M3", "mutation", "C20", D, "        return self == other and other.ttl > (self.ttl / 2)", "        return self == other and other.ttl >= (self.ttl / 2)"),
+    ("D-M4", "mutation", "C20", D, "            if self._suppressed_by_answer(record):\n                return True\n        return False", "            if self._suppressed_by_answer(record):\n                return True\n            return False\n        return False"),
+    ("D-R1", "rewrite", "C13", D, ("remain", "left"), None),
+    ("D-R2", "rewrite", "C20", D, "        for record in answers:\n            if self._suppressed_by_answer(record):\n                return True\n        return False",
+     "        found = False\n        for record in answers:\n            if self._suppressed_by_answer(record):\n                found = True\n                break\n        return found"),
+    ("D-R3", "rewrite", "C13", D, "        return self.created + (_EXPIRE_FULL_TIME_MS * self.ttl) <= now", "        return now >= self.created + (_EXPIRE_FULL_TIME_MS * self.ttl)"),
     ("R-R5", "rewrite", "C03", R, "        names = index[key]\n        names.remove(name)\n        if not names:\n            del index[key]\n",
      "        index[key].remove(name)\n        if len(index[key]) == 0:\n            del index[key]\n"),
 ]
